@@ -18,6 +18,7 @@ import sympy as sp
 from . import astq as A
 from . import common as C
 from . import facts as FX
+from . import jetnum as J
 from . import polyeval as P
 from . import rules_table as RT
 from . import symeval as S
@@ -40,7 +41,7 @@ class AngleAxisVal:
 
 
 class SeriesSym(P.PolySym):
-    """Expression-domain interpreter, closed-form world."""
+    """Jet-domain interpreter (engine/jetnum.py), closed-form world."""
 
     def ev(self, n, env):
         n0 = A.strip(n)
@@ -50,42 +51,57 @@ class SeriesSym(P.PolySym):
             b = S.scalarize(P.PolySym.ev(self, n0["ch"][1], env))
             eps = S.Aff(S.Fraction(100, 2 ** 52))
             def symbolic(x):
-                return isinstance(x, S.Poly) or (isinstance(x, S.Aff) and not x.is_const())
-            if b == eps and symbolic(a):
+                return isinstance(x, J.JetNum) and not x.is_const()
+            if isinstance(b, S.Aff) and b == eps and symbolic(a):
                 return n0["op"] in (">", ">=")       # closed-form world: the rotation magnitude is above the threshold
-            if a == eps and symbolic(b):
+            if isinstance(a, S.Aff) and a == eps and symbolic(b):
                 return n0["op"] in ("<", "<=")
             if isinstance(a, (S.Aff, S.Poly)) and isinstance(b, (S.Aff, S.Poly)) and (symbolic(a) or symbolic(b)):
-                # sign conditions on symbolic data (cos_angle < 0): the jet is taken around the identity, w > 0
-                d = sp.limit((S.to_sym(a) - S.to_sym(b)).subs(self.scale), E, 0) if self.scale else None
-                if d is not None and d.is_number and d != 0:
-                    return {"<": d < 0, "<=": d <= 0, ">": d > 0, ">=": d >= 0}[n0["op"]]
+                # sign conditions on symbolic data (cos_angle < 0): decided by the value at the identity when it is non-zero
+                d = J.add(a, b, -1)
+                if d.val() == 0 and d.c[0].is_number and d.c[0] != 0:
+                    d0 = d.c[0]
+                    return bool({"<": d0 < 0, "<=": d0 <= 0, ">": d0 > 0, ">=": d0 >= 0}[n0["op"]])
+                raise S.Unsupported("comparison of jets not decided at the identity: %s" % sexp(n0)[:80])
             return self.arith(n0["op"], a, b)
         return P.PolySym.ev(self, n, env)
 
-    scale = None
-
     def extra_call(self, n, env, k, fn, obj, args, name, cls, dim):
-        if not cls and name in ("cos", "sin", "sqrt", "abs", "atan2", "tan", "acos", "asin") and args:
+        if not cls and name in ("cos", "sin", "sqrt", "abs", "atan2", "atan", "tan", "acos", "asin") and args:
             vals = [S.scalarize(self.ev(a, env)) for a in args]
-            if all(isinstance(v, (S.Aff, S.Poly)) for v in vals) and not all(isinstance(v, S.Aff) and v.is_const() for v in vals):
-                sy = [S.to_sym(v) for v in vals]
-                f = {"cos": sp.cos, "sin": sp.sin, "sqrt": sp.sqrt, "abs": sp.Abs, "tan": sp.tan, "acos": sp.acos, "asin": sp.asin}.get(name)
-                if name == "atan2":
-                    # around the identity the second argument (cos) is positive
-                    return S.Poly(sp.atan(sy[0] / sy[1]))
-                return S.Poly(f(sy[0]))
+            if all(isinstance(v, (S.Aff, S.Poly)) for v in vals) and any(isinstance(v, J.JetNum) for v in vals):
+                try:
+                    if name == "atan2":
+                        # around the identity the second argument (a cosine) is positive: atan2(y, x) = atan(y / x)
+                        x = J.lift(vals[1])
+                        if not (x.val() == 0 and x.c[0].is_number and x.c[0] > 0):
+                            raise S.Unsupported("atan2 with a second argument not positive at the identity")
+                        return J.atan(J.div(vals[0], vals[1]))
+                    if name in ("cos", "sin", "sqrt", "atan"):
+                        return getattr(J, name)(vals[0])
+                    if name == "abs":
+                        return S.TOP          # only used by validity assertions (|norm - 1| < eps): not decided here (C13)
+                except (ValueError, ZeroDivisionError) as ex:
+                    raise S.Unsupported("%s: %s" % (name, ex))
+                raise S.Unsupported("%s of a jet" % name)
         if cls.startswith("Eigen::") and name in ("squaredNorm", "norm", "normalized") and obj is not None:
             m = S.as_mat(self.ev(obj, env))
-            if m is not None and all(isinstance(x, (S.Aff, S.Poly)) for x in m.cells):
-                sq = sum(S.to_sym(x) ** 2 for x in m.cells)
+            if m is not None and all(isinstance(x, (S.Aff, S.Poly)) for x in m.cells) and any(isinstance(x, J.JetNum) for x in m.cells):
+                sq = J.JetNum({})
+                for x in m.cells:
+                    sq = J.add(sq, J.mul(x, x))
                 if name == "squaredNorm":
-                    return S.from_sym(sq)
+                    return sq
+                nr = J.sqrt(sq)
                 if name == "norm":
-                    return S.Poly(sp.sqrt(sq))
+                    return nr
                 o = S.Mat(m.R, m.C)
-                o.cells = [S.Poly(S.to_sym(x) / sp.sqrt(sq)) for x in m.cells]
+                o.cells = [J.div(x, nr) for x in m.cells]
                 return o
+        if cls.startswith("Eigen::") and name == "inverse" and obj is not None and not args:
+            m = S.as_mat(self.ev(obj, env))
+            if m is not None and m.R == m.C and all(isinstance(x, (S.Aff, S.Poly)) for x in m.cells):
+                return neumann_inverse(self, m)
         if cls.startswith("Eigen::AngleAxis"):
             if k in ("CXXConstructExpr", "CXXTemporaryObjectExpr"):
                 real = [a for a in args if not (isinstance(a, dict) and a.get("k") == "CXXDefaultArgExpr")]
@@ -99,25 +115,43 @@ class SeriesSym(P.PolySym):
             if len(real) == 1:
                 v = self.ev(real[0], env)
                 if isinstance(v, AngleAxisVal) and v.axis is not None:
-                    h = S.to_sym(v.angle) / 2
-                    ax = [S.to_sym(x) for x in v.axis.cells]
-                    return P.Quat(S.Poly(ax[0] * sp.sin(h)), S.Poly(ax[1] * sp.sin(h)), S.Poly(ax[2] * sp.sin(h)), S.Poly(sp.cos(h)))
-        r = P.PolySym.extra_call(self, n, env, k, fn, obj, args, name, cls, dim)
-        return r
+                    # Eigen: q = (axis * sin(angle/2), cos(angle/2))
+                    h = J.mul(v.angle, S.Aff(S.Fraction(1, 2)))
+                    sh, ch = J.sin(h), J.cos(h)
+                    ax = v.axis.cells
+                    return P.Quat(J.mul(ax[0], sh), J.mul(ax[1], sh), J.mul(ax[2], sh), ch)
+        return P.PolySym.extra_call(self, n, env, k, fn, obj, args, name, cls, dim)
 
 
-def jet(expr, order):
-    """Taylor polynomial in E up to `order`, expanded."""
-    if expr == 0:
-        return sp.Integer(0)
-    try:
-        s = sp.series(expr, E, 0, order + 1).removeO()
-    except Exception as ex:   # noqa
-        raise C.AnalysisBroken("R-SERIES: cannot expand %s: %s" % (str(expr)[:120], ex))
-    return sp.expand(sp.simplify(s))
+NEUMANN = 4
 
 
-def mat_expr(m):
+def neumann_inverse(sym, m):
+    """Eigen's inverse() of M = I + U with U = O(e): the unique inverse is sum_k (-U)^k, cut after k = NEUMANN
+    (the cells are then known through order NEUMANN)."""
+    n = m.R
+    U = S.Mat(n, n)
+    for r in range(n):
+        for c in range(n):
+            x = J.lift(m.get(r, c))
+            if r == c:
+                x = J.add(x, S.Aff(1), -1)
+            if x.vz() < 1:
+                raise S.Unsupported("inverse() of a matrix that is not the identity at the origin")
+            U.set(r, c, x if x.c else S.Aff(0))
+    acc = S.Mat(n, n, S.Aff(0))
+    for r in range(n):
+        acc.set(r, r, S.Aff(1))
+    term = acc
+    for kk in range(1, NEUMANN + 1):
+        term = sym.arith("*", term, U)
+        acc = sym.arith("+" if kk % 2 == 0 else "-", acc, term)
+    out = S.Mat(n, n)
+    out.cells = [J.JetNum(J.lift(x).c, min(J.lift(x).p, NEUMANN)) for x in acc.cells]
+    return out
+
+
+def mat_jets(m):
     rows = []
     for r in range(m.R):
         row = []
@@ -125,28 +159,26 @@ def mat_expr(m):
             x = m.get(r, c)
             if not isinstance(x, (S.Aff, S.Poly)):
                 return None
-            row.append(S.to_sym(x))
+            row.append(J.lift(x))
         rows.append(row)
-    return sp.Matrix(rows)
+    return rows
 
 
-def analyse(rep, prop, v, what, order_exp=3, order_jac=2):
+def analyse(rep, prop, v, what, order_exp=5, order_jac=4):
     """what: subset of {'exp','log','rjac','ljac','rjacinv','ljacinv'}"""
     tcls, gcls, dof, rep_n = TAN[v]
     F = FX.get(v)
     TT = RT.extract(F, v)
     own_t, own_g = tcls + "<double>", gcls + "<double>"
-    old = S.POLY
-    S.POLY = "expr"
+    old = S.POLY, S.JET
+    S.POLY, S.JET = "expr", J
     n_obl = 0
     try:
         sym = SeriesSym(F)
         cs = [sp.Symbol("c%d" % i) for i in range(dof)]
-        sym.scale = {c: E * c for c in cs}
         m = S.Mat(dof, 1)
-        m.cells = [S.Aff.sym("c%d" % i) for i in range(dof)]
+        m.cells = [J.JetNum({1: c}) for c in cs]
         t = S.Obj(S.View(m, 0, 0, dof, 1))
-        sub = {c: E * c for c in cs}
         H = sp.Matrix([[S.to_sym(TT.H.get(r, c)) for c in range(TT.H.C)] for r in range(TT.H.R)])
         AD = sp.Matrix([[S.to_sym(TT.smallAdj.get(r, c)) for c in range(dof)] for r in range(dof)])
         Idof = sp.eye(dof)
@@ -161,19 +193,31 @@ def analyse(rep, prop, v, what, order_exp=3, order_jac=2):
                 raise C.AnalysisBroken("R-SERIES cannot interpret %s of %s: %s" % (whatf, own_t, ex))
 
         def compare(name, got, want, order, f):
+            """got: rows of JetNum; want: sympy Matrix, graded polynomial in cs (degree = order in e)"""
             nonlocal n_obl
             for r in range(want.shape[0]):
                 for c in range(want.shape[1]):
                     n_obl += 1
-                    g = jet(got[r, c].subs(sub), order)
-                    w = sp.expand(want[r, c].subs(sub))
-                    w = sum(term for term in sp.Add.make_args(w) if sp.degree(term, E) <= order) if w != 0 else 0
-                    d = sp.expand(g - w)
-                    if d != 0:
-                        d = sp.simplify(d)
-                    rep.obligation(d == 0, lambda r=r, c=c, d=d: F_(
+                    try:
+                        g = J.truncate(got[r][c], order)
+                    except ValueError as ex:
+                        raise C.AnalysisBroken("R-SERIES: %s(%d,%d) of %s: %s (raise jetnum.ORDER)" % (name, r, c, v, ex))
+                    bad = None
+                    if any(k < 0 for k in g):
+                        bad = "a pole of order %d at the identity" % -min(g)
+                    else:
+                        wp = sp.Poly(sp.expand(want[r, c]), *cs) if want[r, c] != 0 else None
+                        for kk in range(order + 1):
+                            wk = sum((coef * sp.prod([x ** e for x, e in zip(cs, mon)]) for mon, coef in wp.terms() if sum(mon) == kk), sp.Integer(0)) if wp is not None else sp.Integer(0)
+                            d = J.simp(g.get(kk, sp.Integer(0)) - wk)
+                            if d != 0:
+                                d = sp.simplify(d.subs({rr: sp.sqrt(rad) for rad, rr in J._roots.items()}))
+                            if d != 0:
+                                bad = "order %d: closed form %s, series %s" % (kk, str(g.get(kk, 0))[:70], str(wk)[:70])
+                                break
+                    rep.obligation(bad is None, lambda r=r, c=c, bad=bad: F_(
                         "R-SERIES." + name, "%s(%d,%d)" % (name, r, c),
-                        "the Taylor jet (order %d in the tangent) of the closed form of %s at (%d,%d) differs from the defining series by %s" % (order, name, r, c, str(d.subs(E, 1))[:160]), f))
+                        "the Taylor jet (through order %d in the tangent) of the closed form of %s at (%d,%d) differs from the defining series: %s" % (order, name, r, c, bad), f))
 
         if "exp" in what or "log" in what:
             f_exp = find(F, tcls + "Base", "exp", own_t)
@@ -182,27 +226,41 @@ def analyse(rep, prop, v, what, order_exp=3, order_jac=2):
                 raise C.AnalysisBroken("anchor vanished: exp / transform of %s" % v)
             X = ev(f_exp, t, [None], "exp")
             if "exp" in what:
-                TX = mat_expr(S.as_mat(ev(f_T, X, [], "transform(exp)")))
+                TX = mat_jets(S.as_mat(ev(f_T, X, [], "transform(exp)")))
                 if TX is None:
                     raise C.AnalysisBroken("R-SERIES: transform(exp(t)) of %s has a non-symbolic cell" % v)
-                n = TX.shape[0]
+                n = len(TX)
                 Hp = sp.zeros(n, n)
                 for r in range(H.shape[0]):
                     for c in range(H.shape[1]):
                         Hp[r, c] = H[r, c]
-                want = sp.eye(n) + Hp + Hp * Hp / 2 + Hp * Hp * Hp / 6
+                want = sp.eye(n)
+                term = sp.eye(n)
+                for kk in range(1, order_exp + 1):
+                    term = (term * Hp / kk).applyfunc(sp.expand)
+                    want = want + term
                 compare("exp", TX, want, order_exp, f_exp)
             if "log" in what:
                 f_log = find(F, gcls + "Base", "log", own_g)
                 if f_log is None:
                     raise C.AnalysisBroken("anchor vanished: log of %s" % v)
                 tl = ev(f_log, X, [None], "log(exp)")
-                got = mat_expr(tl.coeffs.mat())
+                got = mat_jets(tl.coeffs.mat())
                 if got is None:
                     raise C.AnalysisBroken("R-SERIES: log(exp(t)) of %s has a non-symbolic cell" % v)
                 compare("log", got, sp.Matrix(cs), order_exp, f_log)
-        series = {"rjac": Idof - AD / 2 + AD * AD / 6, "ljac": Idof + AD / 2 + AD * AD / 6,
-                  "rjacinv": Idof + AD / 2 + AD * AD / 12, "ljacinv": Idof - AD / 2 + AD * AD / 12}
+        def ad_series(coef):
+            out, P_ = sp.zeros(dof, dof), sp.eye(dof)
+            for kk in range(order_jac + 1):
+                out = out + coef(kk) * P_
+                P_ = (P_ * AD).applyfunc(sp.expand)
+            return out
+        # Jl = sum ad^k/(k+1)!,  Jr = sum (-ad)^k/(k+1)!,  Jl^-1 = sum B_k ad^k/k!,  Jr^-1 = sum B_k (-ad)^k/k!   (B_1 = -1/2)
+        bern = lambda kk: sp.bernoulli(kk) * (-1 if kk == 1 and sp.bernoulli(1) > 0 else 1)
+        series = {"rjac": ad_series(lambda kk: sp.Integer(-1) ** kk / sp.factorial(kk + 1)),
+                  "ljac": ad_series(lambda kk: sp.Integer(1) / sp.factorial(kk + 1)),
+                  "rjacinv": ad_series(lambda kk: sp.Integer(-1) ** kk * bern(kk) / sp.factorial(kk)),
+                  "ljacinv": ad_series(lambda kk: bern(kk) / sp.factorial(kk))}
         for name, want in series.items():
             if name not in what:
                 continue
@@ -211,10 +269,61 @@ def analyse(rep, prop, v, what, order_exp=3, order_jac=2):
                 f = find(F, "manif::TangentBase", name, own_t)
             if f is None:
                 raise C.AnalysisBroken("anchor vanished: %s of %s" % (name, v))
-            got = mat_expr(S.as_mat(ev(f, t, [], name)))
+            got = mat_jets(S.as_mat(ev(f, t, [], name)))
             if got is None:
                 raise C.AnalysisBroken("R-SERIES: %s of %s has a non-symbolic cell" % (name, v))
             compare(name, got, want, order_jac, f)
     finally:
-        S.POLY = old
+        S.POLY, S.JET = old
     return n_obl
+
+
+class _Collector:
+    def __init__(self):
+        self.n_ok, self.findings = 0, []
+
+    def obligation(self, holds, mk):
+        if holds:
+            self.n_ok += 1
+        else:
+            self.findings.append(mk())
+
+
+def _worker(job):
+    repo, prop, v, what, oe, oj = job
+    if repo != C.REPO:
+        C.set_repo(repo)
+    col = _Collector()
+    try:
+        n = analyse(col, prop, v, set(what), oe, oj)
+    except C.AnalysisBroken as ex:
+        return v, 0, col.n_ok, col.findings, str(ex)
+    return v, n, col.n_ok, col.findings, None
+
+
+def check(rep, prop, what, variants=None, order_exp=5, order_jac=4):
+    """Runs `analyse` for every variant in its own process; returns the number of cells compared."""
+    import multiprocessing as mp
+    variants = list(variants or TAN)
+    FX.get(variants[0])     # plugin / cache sanity in the parent (fails early with a clear message)
+    jobs = []
+    for v in variants:
+        if TAN[v][2] >= 6:        # large groups: one process per function
+            jobs += [(C.REPO, prop, v, [w], order_exp, order_jac) for w in sorted(what)]
+        else:
+            jobs.append((C.REPO, prop, v, sorted(what), order_exp, order_jac))
+    jobs.sort(key=lambda j: -TAN[j[2]][2])
+    ctx = mp.get_context("fork")
+    with ctx.Pool(min(len(jobs), 12)) as pool:
+        res = pool.map(_worker, jobs, chunksize=1)
+    total = 0
+    for v, n, n_ok, findings, broke in res:
+        if broke:
+            rep.broke(broke)
+        rep.ok(n_ok)
+        for f in findings:
+            rep.fail(f)
+        total += n
+        rep.sample({"rule": "R-SERIES", "variant": v, "cells_compared": n,
+                    "orders": {"exp/log": order_exp, "jacobians": order_jac}})
+    return total
